@@ -99,6 +99,7 @@ type Machine struct {
 
 	// pool model, time model etc.
 	clock     *sym.Term
+	clockNs   *sym.Term
 	clockN    int
 	poolItems map[*Value][]Value
 	ufCache   map[string][]ufApp
@@ -149,6 +150,7 @@ func (m *Machine) resetPath(prefix []Decision) {
 	m.dead = false
 	m.preempt = 0
 	m.clock = nil
+	m.clockNs = nil
 	m.clockN = 0
 	m.poolItems = map[*Value][]Value{}
 	m.ufCache = map[string][]ufApp{}
